@@ -21,7 +21,7 @@ use std::time::{Duration, Instant};
 use krill::api;
 use serde_json::{json, Value};
 
-use super::c18::{Case, TOp};
+use super::c18::{spare_gone, Case, TOp, SPARE};
 use crate::hooks;
 use crate::httpd::{Daemon, DaemonCfg, Reply, Transport};
 use crate::ops::{payload_json, RoaSpec, ASNS};
@@ -145,6 +145,7 @@ fn run_thread(d: &Daemon, t: usize, ops: &[TOp]) -> Done {
     let mut roas: BTreeSet<(u8, u8)> = BTreeSet::new();
     let mut done = Vec::new();
     let csrs = crate::csr::pool();
+    let mut spare_deleted = false;
     for op in ops {
         let res: Result<(), String> = (|| match op {
             TOp::RoaAdd { ca, slot } => {
@@ -193,6 +194,32 @@ fn run_thread(d: &Daemon, t: usize, ops: &[TOp]) -> Done {
             // slots are reads of the publication server instead
             TOp::Publish { slot, .. } => get(d, &format!("/api/v1/pubd/publishers/{}", CAS[*slot as usize % 3])),
             TOp::Withdraw { .. } => get(d, "/api/v1/pubd/publishers"),
+            TOp::SpareUpdateId => post(d, &format!("/api/v1/cas/{SPARE}/id"), None),
+            TOp::SpareRead => {
+                get(d, &format!("/api/v1/cas/{SPARE}"))?;
+                get(d, &format!("/api/v1/cas/{SPARE}/history/commands"))
+            }
+            TOp::SpareDelete => {
+                if t != 0 {
+                    Ok(())
+                } else if !spare_deleted {
+                    let r = admin(d, "DELETE", &format!("/api/v1/cas/{SPARE}"), None)?;
+                    if r.status == 200 {
+                        spare_deleted = true;
+                        Ok(())
+                    } else {
+                        Err(format!("{} {}", r.status, r.text()))
+                    }
+                } else {
+                    let r = admin(d, "POST", "/api/v1/cas", Some(&json!({"handle": SPARE}).to_string()))?;
+                    if r.status == 200 {
+                        spare_deleted = false;
+                        Ok(())
+                    } else {
+                        Err(format!("{} {}", r.status, r.text()))
+                    }
+                }
+            }
             TOp::Read => {
                 for ca in CAS {
                     get(d, &format!("/api/v1/cas/{ca}"))?;
@@ -238,6 +265,7 @@ pub fn run_case_daemon(case: &Case) -> Result<Result<Vec<String>, Bad>, String> 
     wait_quiet(&dir, limit).map_err(|e| format!("set-up does not settle: {e}"))?;
     create_ca(&d, "ca1", "ca0")?;
     create_ca(&d, "ca2", "testbed")?;
+    ok(admin(&d, "POST", "/api/v1/cas", Some(&json!({"handle": SPARE}).to_string()))?, "create spare ca")?;
     wait_quiet(&dir, limit).map_err(|e| format!("set-up does not settle: {e}"))?;
     for ca in CAS {
         let j = ok(admin(&d, "GET", &format!("/api/v1/cas/{ca}"), None)?, "ca info")?.json().unwrap_or_default();
@@ -252,6 +280,14 @@ pub fn run_case_daemon(case: &Case) -> Result<Result<Vec<String>, Bad>, String> 
     let panics0 = crate::world::PANIC_COUNT.load(Ordering::SeqCst);
     let d = Arc::new(d);
     hooks::h().set_yield(Some(case.yield_seed));
+    // The scheduler sleeps half a second when it finds the queue empty, longer than a whole request set takes: give
+    // it work and let the clients start when it has woken up, so that background tasks run while requests come in.
+    let _ = admin(&d, "POST", "/api/v1/bulk/cas/sync/parent", None)?;
+    let _ = admin(&d, "POST", "/api/v1/bulk/cas/sync/repo", None)?;
+    let t_wake = Instant::now();
+    while queue_state(&dir, 0).0.is_empty() && t_wake.elapsed() < Duration::from_millis(800) {
+        std::thread::sleep(Duration::from_millis(1));
+    }
     let mut handles = Vec::new();
     for (t, ops) in case.threads.iter().cloned().enumerate().take(5) {
         let d = d.clone();
@@ -280,6 +316,12 @@ pub fn run_case_daemon(case: &Case) -> Result<Result<Vec<String>, Bad>, String> 
     };
 
     // answers
+    let delete_issued = results.first().map(|d| d.iter().any(|(op, _)| matches!(op, TOp::SpareDelete))).unwrap_or(false);
+    let toggles = results.first().map(|d| d.iter().filter(|(op, r)| matches!(op, TOp::SpareDelete) && r.is_ok()).count()).unwrap_or(0);
+    let spare_users = results.iter().enumerate().filter(|(t, d)| *t != 0 && d.iter().any(|(op, _)| matches!(op, TOp::SpareUpdateId | TOp::SpareRead))).count();
+    if delete_issued && spare_users > 0 {
+        classes.insert("ca_deleted_while_others_use_it".into());
+    }
     let mut same_ca: BTreeMap<u8, BTreeSet<usize>> = BTreeMap::new();
     for (t, done) in results.iter().enumerate() {
         for (op, r) in done {
@@ -293,6 +335,9 @@ pub fn run_case_daemon(case: &Case) -> Result<Result<Vec<String>, Bad>, String> 
                 if matches!(op, TOp::KeyrollInit) {
                     continue;
                 }
+                if matches!(op, TOp::SpareUpdateId | TOp::SpareRead) && delete_issued && spare_gone(e) {
+                    continue;
+                }
                 return finish(d, bad("c18-request-failed", &format!("daemon-{name}"), format!("client {t} {op:?} failed although it succeeds in every serial order: {e}")));
             }
             if let TOp::RoaAdd { ca, .. } | TOp::RoaRemove { ca, .. } | TOp::Aspa { ca, .. } | TOp::Bgpsec { ca } = op {
@@ -304,6 +349,17 @@ pub fn run_case_daemon(case: &Case) -> Result<Result<Vec<String>, Bad>, String> 
         classes.insert("same_ca_from_2plus_threads".into());
     }
 
+    // the spare CA: gone if its deletion was acknowledged, there otherwise
+    {
+        let there = admin(&d, "GET", &format!("/api/v1/cas/{SPARE}"), None)?.status == 200;
+        let expect_there = toggles % 2 == 0;
+        if there != expect_there {
+            return finish(d, bad("c18-delete", if there { "daemon-ca-still-there" } else { "daemon-ca-vanished" }, format!("after {toggles} acknowledged deletions / re-creations {SPARE} should {} but it {}", if expect_there { "exist" } else { "be gone" }, if there { "exists" } else { "is gone" })));
+        }
+        if toggles > 1 {
+            classes.insert("ca_deleted_and_created_again".into());
+        }
+    }
     // background work catches up
     let quiet = wait_quiet(&dir, limit);
     let exits = hooks::h().take_exits();
